@@ -2,6 +2,7 @@
 //! (the fast path only compares records with what TLC printed).
 mod cfg;
 mod exec;
+mod handles;
 mod joinrun;
 mod lts;
 mod names;
@@ -60,6 +61,23 @@ fn main() {
             r["lts_states"] = json!(lts.states.len());
             r["lts_edges"] = json!(lts.nedges);
             println!("{}", r);
+            0
+        }
+        "handles" => {
+            let lts = handles::HLts::load(&PathBuf::from(get("lts", "")));
+            let o = handles::HOpts {
+                cfg: get("cfg", "mem"),
+                names: get("names", "ascii"),
+                b: get("b", "1").parse().unwrap(),
+                seed: get("seed", "1").parse().unwrap(),
+                walks: get("walks", "50").parse().unwrap(),
+                len: get("len", "60").parse().unwrap(),
+                out: PathBuf::from(get("out", "work/handles")),
+                lower_file: a.contains_key("lower-file"),
+                extreme: a.contains_key("extreme"),
+                depth: get("depth", "1").parse().unwrap(),
+            };
+            println!("{}", handles::run(&lts, &o));
             0
         }
         "join" => {
